@@ -38,7 +38,7 @@ def load_known():
 def run_component(c, tier):
     kind = c["kind"]
     if kind == "verus":
-        r = unitmod.run_unit(c["unit"], c["template"], rlimit=c.get("rlimit", 30))
+        r = unitmod.run_unit(c["unit"], c["template"], rlimit=c.get("rlimit", 30), generator=c.get("generator"))
         j = r.to_json()
         j["trusted"] = r.trusted
         j["kind"] = "verus"
@@ -195,7 +195,7 @@ def main(argv):
         names = argv[2:] or sorted(props.UNITS)
         for name in names:
             u = props.UNITS[name]
-            r = unitmod.run_unit(name, u["template"], rlimit=u.get("rlimit", 30), canaries=False)
+            r = unitmod.run_unit(name, u.get("template"), rlimit=u.get("rlimit", 30), canaries=False, generator=u.get("generator"))
             if r.status != "ok":
                 print("unit %s not ok (%s: %s) - baseline not written" % (name, r.status, r.reason))
                 for f in r.failures:
